@@ -32,7 +32,7 @@ m = {
         "guard": "denoland_deno_graph_verif",
         "enable": "RUSTFLAGS=--cfg denoland_deno_graph_verif (set in harness/.cargo/config.toml; the harness depends on /repo by path)",
         "baseline_off_cmd": "cd /repo && cargo test --workspace --no-fail-fast --offline",
-        "source_commits": [],
+        "source_commits": ["verif hooks: expose fast-check lattice operations and public-range dump under cfg(denoland_deno_graph_verif)"],
         "add_only": True,
     },
     "engines": [{
